@@ -226,7 +226,7 @@ HaveEq(s0) == Len(s0.H) = s0.n - s0.k      \* the session's equations were obser
 (* value the configured code prescribes for repair symbol esi *)
 BinRepair(s0, ev) ==
     LET row == s0.H[ev.esi - s0.k + 1]
-        val(e) == IF e < s0.k THEN {e} ELSE s0.built[e - s0.k + 1]
+        val(e) == IF e < s0.k THEN (IF e \in s0.zeroed THEN {} ELSE {e}) ELSE s0.built[e - s0.k + 1]
     IN  XorSeq([ j \in 1 .. Cardinality(row \ {ev.esi}) |-> val(SetToSeq(row \ {ev.esi})[j]) ])
 
 BuiltBefore(s0, esi) ==
@@ -244,6 +244,25 @@ RepRsOK(s0, ev) ==
         /\ \A i \in DOMAIN ev.v : ev.v[i][1] < s0.npos /\ ev.v[i][2] = g[(ev.v[i][1] % s0.k) + 1]
         /\ Len(ev.v) = Cardinality({ p \in 0 .. (s0.npos - 1) : g[(p % s0.k) + 1] # 0 })
 
+(* Reed-Solomon with some source symbols overwritten by zeros (identity payloads elsewhere): the built symbol is  *)
+(* the generator row with those coefficients removed, i.e. it is zero there and SOME values at those positions     *)
+(* make it the generator row                                                                                       *)
+RECURSIVE FillOK(_, _, _, _, _)
+FillOK(g, Z, k, esi, m) ==
+    IF Z = {} THEN IsGeneratorRow(g, k, esi, m)
+    ELSE LET i == CHOOSE x \in Z : TRUE
+         IN  \E c \in 0 .. (2 ^ m - 1) : FillOK([g EXCEPT ![i + 1] = c], Z \ {i}, k, esi, m)
+RsZeroedOK(s0, ev) ==
+    LET m == IF s0.codec = 1 THEN 8 ELSE s0.m
+        g == RowFromPairs(ev.v, s0.k)
+    IN  /\ \A i \in DOMAIN ev.v : ev.v[i][1] < s0.k
+        /\ \A i \in s0.zeroed : g[i + 1] = 0
+        /\ FillOK(g, s0.zeroed, s0.k, ev.esi, m)
+
+DoZero(s0, ev) ==
+    [ s |-> [s0 EXCEPT !.zeroed = s0.zeroed \cup {ev.i}],
+      fails |-> F(s0.phase = "configured" /\ s0.payload = "id" /\ ev.i < s0.k /\ Cardinality(s0.zeroed) < 2, "INFRA", "driver-protocol") ]
+
 DoBuild(s0, ev) ==
     LET idx == ev.esi - s0.k + 1
         has == "v" \in DOMAIN ev
@@ -252,7 +271,9 @@ DoBuild(s0, ev) ==
             IF ~has THEN s0.payload = "rnd"
             ELSE IF IsBin(s0) THEN ((HaveEq(s0) /\ BuiltBefore(s0, ev.esi)) =>
                                       IF rep THEN RepBinOK(s0, ev.v, BinRepair(s0, ev)) ELSE Vec(ev.v) = BinRepair(s0, ev))
-            ELSE IF rep THEN RepRsOK(s0, ev) ELSE RsRowOK(s0.codec, s0.m, s0.k, ev.esi, ev.v, s0.len)
+            ELSE IF rep THEN RepRsOK(s0, ev)
+            ELSE IF s0.zeroed # {} THEN RsZeroedOK(s0, ev)
+            ELSE RsRowOK(s0.codec, s0.m, s0.k, ev.esi, ev.v, s0.len)
         thisVec == IF rep THEN BaseVec(s0, ev.v) ELSE Vec(ev.v)
         b1 == IF has /\ IsBin(s0)
               THEN [ j \in 1 .. (s0.n - s0.k) |-> IF j = idx THEN thisVec
@@ -332,6 +353,7 @@ Step ==
                       [] ev.e = "GetTab"    -> Apply(ev, DoGetTab(s0, ev), sid)
                       [] ev.e = "Release"   -> Apply(ev, DoRelease(s0, ev), sid)
                       [] ev.e = "Build"     -> Apply(ev, DoBuild(s0, ev), sid)
+                      [] ev.e = "Zero"      -> Apply(ev, DoZero(s0, ev), sid)
                       [] ev.e = "Ctrl"      -> Apply(ev, DoCtrl(s0, ev), sid)
                       [] ev.e = "Expect"    -> Apply(ev, [ s |-> s0, fails |->
                                                    F(Avail(s0) = ToSet(ev.avail) /\ (Complete(s0) <=> ev.complete = 1),
